@@ -297,6 +297,26 @@ def _only_empty_result_shortcut(g, seen, dpar):
     return True
 
 
+
+
+def _escaping_windows(f, fs, dest_ids):
+    """destination windows that are stored into an array / aggregate or another pointer: the block rules cannot follow them"""
+    out = []
+    for n in f.body.walk():
+        if n.kind == 'DeclRefExpr' and n.refid in dest_ids:
+            p = fs.parent.get(n.uid)
+            while p is not None and p.kind in ('ImplicitCastExpr', 'ParenExpr', 'CStyleCastExpr'):
+                p = fs.parent.get(p.uid)
+            if p is None:
+                continue
+            if p.kind == 'InitListExpr':
+                out.append(n)
+            elif p.kind == 'VarDecl' and p.id not in dest_ids:
+                out.append(n)
+            elif p.kind == 'BinaryOperator' and p.op == '=' and any(x is n for x in p.kids[1].walk()):
+                out.append(n)
+    return out
+
 # ---------------------------------------------------------------------------------------------- C6d
 OVERWRITE_SPLITTERS = {'_mzd_mul_even': 0, '_mzd_sqr_even': 0, '_mzd_mul_mp4': 0}
 
@@ -323,6 +343,9 @@ def rule_C6d(ctx, prog, label, rule='C6d'):
                 d0 = strip(d, casts=True)
                 if d0.kind == 'CallExpr' and callee_name(d0) in ('mzd_init_window',) and strip(d0.kids[1], casts=True).kind == 'DeclRefExpr' and strip(d0.kids[1], casts=True).refid in dests:
                     dests.add(vid)
+        esc = _escaping_windows(f, fs, dests)
+        if esc:
+            raise AnalysisBroken('C6d: in %s the destination block `%s` is stored into an array or another variable (line %s); blocks reached through such copies are not modelled' % (name, esc[0].ref, esc[0].line))
         touch = set()
         empty_edges = set()
         for n in g.nodes:
@@ -362,4 +385,145 @@ def rule_C6d(ctx, prog, label, rule='C6d'):
                       '%s can return without having written its destination `%s` (a shortcut path bypasses every product/addition into %s or its quadrants): '
                       'the previous contents stay in the result' % (name, C.name, C.name), {}, label))
     rr.require_floor(2, 'overwriting splitters')
+    return rr
+
+
+# ---------------------------------------------------------------------------------------------- C6e
+_OVERWRITERS = {'_mzd_mul_even': None, '_mzd_sqr_even': None, 'mzd_mul_m4rm': None, 'mzd_mul': None, '_mzd_mul_m4rm': 4, '_mzd_mul_mp4': None,
+                'mzd_mul_naive': None, '_mzd_mul_naive': None, 'mzd_copy': None, 'mzd_set_ui': None}
+_ACCUMULATORS = {'_mzd_addmul_even': None, '_mzd_addsqr_even': None, 'mzd_addmul_m4rm': None, 'mzd_addmul': None, '_mzd_addmul': None, '_mzd_mul_m4rm': 4,
+                 '_mzd_addmul_mp4': None, 'mzd_addmul_naive': None, '_mzd_add': None, 'mzd_add': None}
+
+
+def rule_C6e(ctx, prog, label, rule='C6e'):
+    """overwriting recursive products: a block of the destination is accumulated into (addmul / add in place) only after it
+    has been overwritten - by a call on a window with the same coordinates, or by calls on windows that tile it.  A strip that
+    only ever receives `+=` keeps the caller's previous contents in the product."""
+    from .symbolic import FuncSym, Lin
+    rr = RuleResult(rule, 'overwriting recursive products: every block of the destination is overwritten before anything is accumulated into it')
+    for name, di in sorted(OVERWRITE_SPLITTERS.items()):
+        f = prog.funcs.get(name)
+        if f is None or f.body is None:
+            continue
+        fs = FuncSym(f)
+        C = f.params[di]
+        # top-level scalar updates  x *= c / x += c  (source order)
+        ups = {}
+        for n in f.body.walk():
+            if n.kind == 'CompoundAssignOperator' and n.op in ('*=', '+=', '-=') and strip(n.kids[0]).kind == 'DeclRefExpr' and int_value(n.kids[1]) is not None:
+                ups.setdefault(strip(n.kids[0]).refid, []).append(((n.line or 0, n.col or 0), n.op, int_value(n.kids[1])))
+
+        def lin_at(e, at):
+            e0 = strip(e, casts=True)
+            v = int_value(e0)
+            if v is not None:
+                return Lin(v)
+            if e0.kind == 'DeclRefExpr' and e0.refid in ups:
+                val = Lin.atom(e0.ref + '@0')
+                for (pos, op, c) in sorted(ups[e0.refid]):
+                    if pos < ((at.line or 0), (at.col or 0)):
+                        val = val.scale(c) if op == '*=' else (val + Lin(c) if op == '+=' else val - Lin(c))
+                return val
+            if e0.kind == 'BinaryOperator' and e0.op in ('+', '-'):
+                a, b = lin_at(e0.kids[0], at), lin_at(e0.kids[1], at)
+                return a + b if e0.op == '+' else a - b
+            if e0.kind == 'BinaryOperator' and e0.op == '*':
+                a, b = lin_at(e0.kids[0], at), lin_at(e0.kids[1], at)
+                if a.is_const():
+                    return b.scale(a.c)
+                if b.is_const():
+                    return a.scale(b.c)
+            return fs.sym(e0)
+        wins = {}
+        for n in f.body.walk():
+            if n.kind == 'VarDecl' and n.kids and n.init:
+                d0 = strip(n.kids[-1], casts=True)
+                if d0.kind == 'CallExpr' and callee_name(d0) == 'mzd_init_window' and strip(d0.kids[1], casts=True).kind == 'DeclRefExpr' and strip(d0.kids[1], casts=True).refid == C.id:
+                    wins[n.id] = tuple(lin_at(a, d0) for a in d0.kids[2:6])
+        esc = _escaping_windows(f, fs, set(wins) | {C.id})
+        if esc:
+            raise AnalysisBroken('C6e: in %s the destination block `%s` is stored into an array or another variable (line %s); blocks reached through such copies are not modelled' % (name, esc[0].ref, esc[0].line))
+        whole = (Lin(0), Lin(0), Lin.atom('%s.nrows' % C.name), Lin.atom('%s.ncols' % C.name))
+
+        def rect_of(a):
+            a0 = strip(a, casts=True)
+            if a0.kind == 'DeclRefExpr':
+                if a0.refid == C.id:
+                    return whole
+                return wins.get(a0.refid)
+            return None
+
+        def covered(w, done):
+            if any(all(x == y for x, y in zip(w, d)) for d in done):
+                return True
+            inside = [d for d in done if True]
+            # tiling: chain row cuts and column cuts through the rectangles
+            def chains(lo, hi, starts_ends, depth=0):
+                if lo == hi:
+                    return [[lo]]
+                if depth > 6:
+                    return []
+                out = []
+                seen_e = []
+                for (s_, e) in starts_ends:
+                    if s_ == lo and not any(e == x for x in seen_e):
+                        seen_e.append(e)
+                        for rest in chains(e, hi, starts_ends, depth + 1):
+                            out.append([lo] + rest)
+                return out
+            for rc in chains(w[0], w[2], [(d[0], d[2]) for d in inside]):
+                for cc in chains(w[1], w[3], [(d[1], d[3]) for d in inside]):
+                    good = True
+                    for i in range(len(rc) - 1):
+                        for j in range(len(cc) - 1):
+                            cell = (rc[i], cc[j], rc[i + 1], cc[j + 1])
+                            if not any(all(x == y for x, y in zip(cell, d)) for d in inside):
+                                good = False
+                    if good:
+                        return True
+            return False
+        calls = sorted([c for c in f.body.find('CallExpr') if callee_name(c) in _OVERWRITERS or callee_name(c) in _ACCUMULATORS], key=lambda c: (c.line or 0, c.col or 0))
+        from .cfg import cfg_of
+        g = cfg_of(f)
+        dom = g.dominators()
+        owner = {}
+        for cn_ in g.nodes:
+            if cn_.ast is not None and cn_.kind in ('stmt', 'branch'):
+                for x in cn_.ast.walk():
+                    owner.setdefault(x.uid, cn_)
+        done_all = []        # (rect, cfg node)
+        for c in calls:
+            me = owner.get(c.uid)
+            # only overwrites that lie on every path to this call count
+            done = [r_ for (r_, nd) in done_all if me is not None and nd is not None and (nd.id in dom.get(me.id, ()) )]
+            cn = callee_name(c)
+            r = rect_of(c.kids[1]) if len(c.kids) > 1 else None
+            if r is None:
+                continue
+            mode = None
+            if cn == '_mzd_mul_m4rm':
+                fl = int_value(c.kids[5]) if len(c.kids) > 5 else None
+                mode = 'over' if fl == 1 else 'acc' if fl == 0 else None
+                if mode is None:
+                    # forwards the function's own clear flag: both behaviours occur, the overwriting one is the one that matters here
+                    mode = 'over'
+            elif cn in _OVERWRITERS:
+                mode = 'over'
+            else:
+                mode = 'acc'
+            if cn in ('_mzd_add', 'mzd_add'):
+                # C_x = C_x + C_y in place: both must be initialised; a plain sum into a fresh block overwrites
+                a1, a2 = rect_of(c.kids[2]), rect_of(c.kids[3])
+                if a1 is None and a2 is None:
+                    mode = 'over'
+            if mode == 'over':
+                done_all.append((r, me))
+                continue
+            rr.instances += 1
+            ok = covered(r, done)
+            rr.ob(ok, dict(function=name, call=pp(c)[:60], block=[repr(x) for x in r]),
+                  Finding(rule, '%s|%s|%s' % (rule, name, pp(strip(c.kids[1], casts=True))), c.loc, name,
+                          '`%s` accumulates into rows [%r, %r) x columns [%r, %r) of the destination, which no earlier call has overwritten: with a caller-supplied, '
+                          'non-zero destination its previous contents stay in the product' % (pp(c)[:60], r[0], r[2], r[1], r[3]), {}, label))
+    rr.require_floor(4, 'accumulating calls into blocks of an overwritten destination')
     return rr
